@@ -26,7 +26,8 @@ META = dict(
           "is proved in any ring, the model's inversecoeff (Neumann loop with interleaved truncation, clamped l) is compared with the "
           "implementation on every run, but 'model inversecoeff = truncated series' is not proved in Coq. numpy.linalg.inv is outside "
           "the model (the exact inverse is an input, checked Ainv*A = 1 inside Coq). Inputs whose inverse needs products beyond "
-          "l = Lmax are outside the domain (documented 'caveat emptor' of inversecoeff; reported as a note)."),
+          "l = Lmax are outside the domain (documented 'caveat emptor' of inversecoeff; reported as a note). Finding c17-inv-real-dtype "
+          "(inv raised on real-dtype input; fixed in /repo 38bef61) is re-tested by a deterministic probe on every run."),
     technique="Coq proof (finite ring identities lifted by linearity; non-commutative ring identity) + exact correspondence over Qc",
 )
 
